@@ -29,6 +29,8 @@ pub struct Stats {
     pub rejected_in_resolution: usize,
     pub mainline_len: usize,
     pub closure_differs: bool,
+    /// the power-event pass replaced an unconflicted power-levels entry in the partial state
+    pub partial_pl_overrides_unconflicted: bool,
 }
 
 pub fn auth_chain(dag: &Dag, ids: impl IntoIterator<Item = String>) -> BTreeSet<String> {
@@ -315,6 +317,9 @@ pub fn resolve_with(dag: &Dag, sets: &[StateSet], v: u8, variant: Variant, stats
         Ok(p) => p,
         Err(w) => return Resolved::Undecided(w),
     };
+    if let Some(u) = unconflicted.get(&key("m.room.power_levels", "")) {
+        stats.partial_pl_overrides_unconflicted = partial.get(&key("m.room.power_levels", "")) != Some(u);
+    }
     // (5) mainline ordering of the rest
     let rest: Vec<String> = full.iter().filter(|id| !x.contains(*id)).cloned().collect();
     stats.other_events = rest.len();
